@@ -149,7 +149,7 @@ class Req(object):
                  'spawns_after', 'signals_after', 'events_after',
                  'queued_before', 'queued_after', 'excl_before', 'excl_after',
                  'wname', 'accepted', 'done_t', 'done_step', 'well_formed',
-                 'disp_call_end', 'done_seq')
+                 'disp_call_end', 'done_seq', 'done_call')
 
     def __init__(self):
         for s in self.__slots__:
@@ -267,6 +267,7 @@ class World(object):
         self.hook_calls = []       # (seq, t, watcher, hook, outcome, kwargs)
         self.hook_scripts = {}
         self.snapshot_fn = None    # used around dispatch (C10/C11)
+        self.reply_hooks = []      # callbacks(req, entry) on a matched reply
         self.scratch = None
         self.start_future = None
         self.closed = False
@@ -536,10 +537,18 @@ class World(object):
         return [r for r in self.reqs if r.dispatched and r.accepted
                 and r.waiting and not r.cast and not r.replies]
 
+    def daemon_gone(self):
+        """the controller has been stopped (quit / daemon restart)"""
+        rs = self.ctx.router_stream
+        return rs is not None and rs.closed_
+
     def quiescent(self):
         a = self.arbiter
         if a is None:
             return True
+        if self.daemon_gone():
+            return not self.loop._ready and not [
+                h for h in self.loop._scheduled if not h._cancelled]
         if a._exclusive_running_command is not None:
             return False
         if self.loop._ready:
@@ -569,8 +578,9 @@ class World(object):
             return False
         if extra_checks:
             target = self.checks_done + extra_checks
-            ok = self.run(lambda: self.checks_done >= target and
-                          self.quiescent(), max_dt=max_dt)
+            ok = self.run(lambda: self.daemon_gone() or
+                          (self.checks_done >= target and self.quiescent()),
+                          max_dt=max_dt)
         return ok
 
     # ---------------------------------------------------------- requests
@@ -715,6 +725,9 @@ class World(object):
                         r.done_t = ent[1]
                         r.done_step = ent[2]
                         r.done_seq = ent[0]
+                        r.done_call = self.sim.ncalls
+                        for h in self.reply_hooks:
+                            h(r, ent)
 
     # ------------------------------------------------------- daemon signals
     def daemon_signal(self, signum):
@@ -751,12 +764,8 @@ class World(object):
                         'blocked': sim.step_blocked,
                         'step': sim.steps, 't': sim.now - EPOCH}
             sim.rec('hung', pid)
-            if pid is not None:
-                k.break_spin.add(pid)
-            if p is None:
-                # unknown spinner: make every waitpid give up
-                for q in k.procs:
-                    k.break_spin.add(q)
+            # nothing that follows is meaningful: every waitpid gives up
+            k.spin_broken = True
 
     def digest(self):
         import hashlib
